@@ -192,6 +192,17 @@ def check_pair(head_seq, tail_seq, strands, stats=None):
         return [("build-raised", repr(err)[:100])]
     before_prev = [[(c.label, c.subtype) for c in m.components] for m in prev_modules]
     before_cur = [[(c.label, c.subtype) for c in m.components] for m in cur_modules]
+
+    def snapshot(modules):
+        """everything a module reports about itself (a refused merge must leave all of it alone)"""
+        out = []
+        for m in modules:
+            try:
+                out.append((m.to_json(), m.is_complete(), m.is_trans_at(), m.is_iterative(), m.is_terminated(), str(m)))
+            except Exception as err:  # pylint: disable=broad-except
+                out.append(("raised", repr(err)[:80]))
+        return out
+    snap_prev, snap_cur = snapshot(prev_modules), snapshot(cur_modules)
     prev = mi.CDSModuleInfo(prev_cds, list(prev_modules))
     cur = mi.CDSModuleInfo(cur_cds, list(cur_modules))
     try:
@@ -204,6 +215,9 @@ def check_pair(head_seq, tail_seq, strands, stats=None):
     if merged is None:
         if after_prev != before_prev or after_cur != before_cur:
             fails.append(("refused-merge-changed-modules", f"{before_prev}|{before_cur} -> {after_prev}|{after_cur}"))
+        elif snapshot(prev.modules) != snap_prev or snapshot(cur.modules) != snap_cur:
+            fails.append(("refused-merge-changed-module-state", f"{before_prev}|{before_cur}: {snap_prev}|{snap_cur} -> "
+                                                                f"{snapshot(prev.modules)}|{snapshot(cur.modules)}"[:600]))
         if stats is not None:
             stats["pairs:refused"] += 1
         return fails
@@ -228,6 +242,15 @@ def check_pair(head_seq, tail_seq, strands, stats=None):
     consumed = 2 if trailing_kr else 1
     if after_prev != before_prev[:-1] + [comps] or after_cur != before_cur[consumed:]:
         fails.append(("merge-bookkeeping", f"{before_prev}|{before_cur} -> {after_prev}|{after_cur}"))
+    elif snapshot(prev.modules[:-1]) != snap_prev[:-1] or snapshot(cur.modules) != snap_cur[consumed:]:
+        fails.append(("merge-changed-other-modules", f"{before_prev}|{before_cur}"))
+    # the merged module rebuilt from its saved form is identical
+    try:
+        again = mi.Module.from_json(merged.to_json())
+        if again.to_json() != merged.to_json() or again.is_complete() != merged.is_complete() or again.is_trans_at() != merged.is_trans_at():
+            fails.append(("merged-json-identity", f"{merged} -> {again}"))
+    except Exception as err:  # pylint: disable=broad-except
+        fails.append(("merged-json-raised", f"{merged}: {type(err).__name__}: {str(err)[:100]}"))
     # the merged module must itself respect the layout rules
     _, probs = analyse(comps, False)
     for prob in probs:
